@@ -1,7 +1,7 @@
 #!/bin/bash
 # run every registered check at the given tier (default quick), validate MANIFEST and evidence files
 TIER=${1:-quick}
-cd /verif
+cd "$(dirname "$0")/.." && ROOT=$(pwd)
 rc=0
 for P in $(/venv/bin/python -c "import json; print(' '.join(c['property_id'] for c in json.load(open('MANIFEST.json'))['checks']))"); do
   out=$(./check check $P --tier $TIER 2>&1); e=$?
@@ -11,11 +11,11 @@ for P in $(/venv/bin/python -c "import json; print(' '.join(c['property_id'] for
 done
 python3-vt - <<'PY'
 import json, jsonschema, glob
-man = json.load(open('/verif/MANIFEST.json'))
+man = json.load(open('MANIFEST.json'))
 jsonschema.validate(man, json.load(open('/root/.vp/MANIFEST.schema.json')))
 sch = json.load(open('/root/.vp/EVIDENCE.schema.json'))
 for c in man['checks']:
-    ev = json.load(open(c['evidence_file']))
+    import os; ev = json.load(open(os.path.join('evidence', os.path.basename(c['evidence_file']))))
     jsonschema.validate(ev, sch)
     assert ev['property_id'] == c['property_id'] and ev['level'] == c['level_claimed']['category'], c['property_id']
 print("manifest + %d evidence files valid" % len(man['checks']))
